@@ -59,7 +59,7 @@ PROP_MODULES = {
     "C17": ["map", "common", "fproxy", "fnocancel", "futures_init"] + _EXEC,
     "C18": ["common", "map", "flat_map", "poll", "retry", "throttle", "fbool", "fzip", "timeout", "cos", "helpers", "fbase"] + _EXEC,
     "C19": ["bind", "wrap", "wrapped", "executors", "flat_map", "map"] + _EXEC,
-    "C20": ["metrics", "retry", "throttle", "metrics_prom", "poll", "timeout", "map", "flat_map", "cos", "sync", "common"] + _EXEC,
+    "C20": ["metrics", "retry", "throttle", "metrics_prom", "poll", "timeout", "map", "flat_map", "cos", "sync", "common", "helpers", "wrapped"] + _EXEC,
 }
 
 
